@@ -886,6 +886,12 @@ pub fn run_c13(a: &Args, shared: &SharedReport) {
                     if (m1 + m2) % 4 == 0 {
                         run.case(&m, &orc, &Config { block: Some(1), ..Config::plain(Strategy::Bfs) }, None);
                     }
+                    if (m1 + m2) % 4 == 1 {
+                        // a depth limit changes what is evaluated, not the order or the minimality of what is
+                        for d in [2usize, 3] {
+                            run.case(&m, &orc, &Config { target_depth: Some(d), ..Config::plain(Strategy::Bfs) }, None);
+                        }
+                    }
                 }
             }
         });
@@ -899,6 +905,11 @@ pub fn run_c13(a: &Args, shared: &SharedReport) {
                 let m = GraphModel { props: vec![(Expectation::Always, m1), (Expectation::Sometimes, m2), (Expectation::Sometimes, 0)], ..core.clone() };
                 let b = [None, Some(1), Some(2), Some(3)][(i + k as usize) % 4];
                 run.case(&m, &orc, &Config { block: b, ..Config::plain(Strategy::Bfs) }, None);
+                if (i + k as usize) % 3 == 0 {
+                    for d in [3usize, 4, 5] {
+                        run.case(&m, &orc, &Config { target_depth: Some(d), block: b, ..Config::plain(Strategy::Bfs) }, None);
+                    }
+                }
             }
         }
     });
